@@ -207,7 +207,7 @@ class CallbackRecorder(object):
 RECEIVER_WRITERS = frozenset(['__init__', 'set_val', '__call__', '__setitem__', 'resize', 'equal', 'reset',
                               'from_bin', 'sort', 'reshape', 'set_best_sizes', '_init_size'])
 # results that are documented / by-design views or shallow copies (DESIGN 3.7)
-SHARING_ALLOWED = frozenset(['__getitem__', 'copy', 'flatten', 'ravel', 'reshape', 'fxp_like', '__array_wrap__',
+SHARING_ALLOWED = frozenset(['__getitem__', 'copy', 'reshape', '__array_wrap__',
                              '__deepcopy__', '__copy__', '__reduce_ex__', '__reduce__'])
 _SKIP_NAMES = frozenset(['__repr__', '__str__', '__array_finalize__', '__dict__', '__class__', '__weakref__',
                          '__module__', '__doc__', '__qualname__', '__len__', '__array__', '__array_prepare__',
